@@ -11,6 +11,7 @@ import (
 	"sort"
 	"strconv"
 	"strings"
+	"time"
 )
 
 type rng struct{ s uint64 }
@@ -57,15 +58,15 @@ type flavor struct {
 }
 
 var flavors = map[string]flavor{
-	"C01": {name: "C01", wPub: 40, wDel: 10, wDelMulti: 4, wTrim: 6, wCompact: 4, wGC: 4, wSync: 3, wReopen: 12, monoPct: 50, obsScan: true, obsFs: true, sweepEvery: 1, verMix: true},
-	"C02": {name: "C02", wPub: 40, wDel: 25, wDelMulti: 5, wTrim: 4, wReopen: 18, wSync: 4, monoPct: 50, obsScan: true, sweepEvery: 1},
-	"C03": {name: "C03", wPub: 40, wDel: 22, wDelMulti: 4, wTrim: 4, wReopen: 8, wGC: 4, monoPct: 50, sweepCons: true, sweepEvery: 3, smallRoll: true},
-	"C04": {name: "C04", wPub: 40, wDel: 22, wDelMulti: 4, wTrim: 4, wReopen: 8, wGC: 4, monoPct: 50, sweepGet: true, sweepEvery: 2, smallRoll: true},
-	"C09": {name: "C09", wPub: 45, wDel: 18, wDelMulti: 3, wCompact: 4, wReopen: 8, wGC: 5, monoPct: 50, sweepKeys: true, sweepEvery: 2, fewKeys: true, smallRoll: true},
-	"C10": {name: "C10", wPub: 45, wDel: 18, wDelMulti: 3, wTrim: 3, wReopen: 10, wGC: 5, monoPct: 100, sweepTimes: true, sweepEvery: 2, smallRoll: true},
+	"C01": {name: "C01", wRO: 4, wPub: 40, wDel: 10, wDelMulti: 4, wTrim: 6, wCompact: 4, wGC: 4, wSync: 3, wReopen: 12, monoPct: 50, obsScan: true, obsFs: true, sweepEvery: 1, verMix: true},
+	"C02": {name: "C02", wRO: 3, wPub: 40, wDel: 25, wDelMulti: 5, wTrim: 4, wReopen: 18, wSync: 4, monoPct: 50, obsScan: true, sweepEvery: 1},
+	"C03": {name: "C03", wRO: 5, wPub: 40, wDel: 22, wDelMulti: 4, wTrim: 4, wReopen: 8, wGC: 4, monoPct: 50, sweepCons: true, sweepEvery: 3, smallRoll: true},
+	"C04": {name: "C04", wRO: 5, wPub: 40, wDel: 22, wDelMulti: 4, wTrim: 4, wReopen: 8, wGC: 4, monoPct: 50, sweepGet: true, sweepEvery: 2, smallRoll: true},
+	"C09": {name: "C09", wRO: 5, wPub: 45, wDel: 18, wDelMulti: 3, wCompact: 4, wReopen: 8, wGC: 5, monoPct: 50, sweepKeys: true, sweepEvery: 2, fewKeys: true, smallRoll: true},
+	"C10": {name: "C10", wRO: 5, wPub: 45, wDel: 18, wDelMulti: 3, wTrim: 3, wReopen: 10, wGC: 5, monoPct: 100, sweepTimes: true, sweepEvery: 2, smallRoll: true},
 	"C11": {name: "C11", wPub: 45, wDel: 14, wDelMulti: 3, wTrim: 3, wCompact: 2, wReopen: 22, wGC: 4, monoPct: 70, obsScan: true, closeChecks: true, sweepEvery: 4, verMix: true, sweepGet: true, sweepKeys: true, sweepTimes: true},
-	"C12": {name: "C12", wPub: 35, wDel: 30, wDelMulti: 14, wReopen: 8, wGC: 3, monoPct: 50, obsScan: true, sweepEvery: 1, verMix: true, smallRoll: true},
-	"C13": {name: "C13", wPub: 45, wDel: 15, wDelMulti: 4, wTrim: 4, wReopen: 12, wGC: 3, monoPct: 50, obsScan: true, obsFs: true, sweepEvery: 1, verMix: true},
+	"C12": {name: "C12", wPub: 35, wDel: 30, wDelMulti: 14, wReopen: 8, wGC: 3, monoPct: 50, obsScan: true, obsFs: true, sweepEvery: 1, verMix: true, smallRoll: true},
+	"C13": {name: "C13", wRO: 4, wPub: 45, wDel: 15, wDelMulti: 4, wTrim: 4, wReopen: 12, wGC: 3, monoPct: 50, obsScan: true, obsFs: true, sweepEvery: 1, verMix: true},
 	"C15": {name: "C15", wPub: 40, wDel: 8, wTrim: 26, wFind: 14, wReopen: 6, monoPct: 70, obsScan: true, sweepEvery: 1, smallRoll: true},
 	"C16": {name: "C16", wPub: 45, wDel: 5, wCompact: 26, wFind: 10, wReopen: 6, monoPct: 70, obsScan: true, sweepEvery: 1, fewKeys: true, smallRoll: true},
 	"C17": {name: "C17", wPub: 40, wDel: 18, wDelMulti: 4, wTrim: 3, wReopen: 26, monoPct: 60, obsScan: true, obsFs: true, sweepEvery: 1, verMix: true, smallRoll: true},
@@ -99,13 +100,45 @@ type seqGen struct {
 	pubOnlySinceBackup bool
 	hadBackup bool
 	lines    int
+	hung     bool
 }
 
 func (g *seqGen) emit(line string) string {
-	lhs, res := g.run.Exec(line)
+	if g.hung {
+		return "err hang"
+	}
+	lhs, res, ok := execWithDeadline(g.run, line)
 	fmt.Fprintf(g.out, "%s => %s\n", lhs, res)
 	g.lines++
+	if !ok {
+		// the call never returned: abandon this runner (its goroutine keeps spinning until exit)
+		g.hung = true
+		g.out.Flush()
+	}
 	return res
+}
+
+// execWithDeadline runs one op; an op that does not return within the deadline is reported
+// as "err hang" (a loop that never terminates is a finding, not an infrastructure problem).
+func execWithDeadline(run *Runner, line string) (string, string, bool) {
+	type r struct{ lhs, res string }
+	ch := make(chan r, 1)
+	go func() {
+		lhs, res := run.Exec(line)
+		ch <- r{lhs, res}
+	}()
+	d := 20 * time.Second
+	if v := os.Getenv("KVH_OP_TIMEOUT"); v != "" {
+		if n, err := strconv.Atoi(v); err == nil {
+			d = time.Duration(n) * time.Second
+		}
+	}
+	select {
+	case x := <-ch:
+		return x.lhs, x.res, true
+	case <-time.After(d):
+		return line, "err hang", false
+	}
 }
 
 func hexKey(s string) string { return hex.EncodeToString([]byte(s)) }
@@ -548,6 +581,10 @@ func (g *seqGen) closeAndReopen(readonlySession bool) {
 func (g *seqGen) history(id int, seed uint64, ops int) {
 	g.r = &rng{s: seed}
 	r := g.r
+	if g.hung {
+		g.hung = false
+		g.run = NewRunner(fmt.Sprintf("%s-h%d", g.run.root, id))
+	}
 	g.run.Reset()
 	fmt.Fprintf(g.out, "# hist %d seed=%d flavor=%s\n", id, seed, g.fl.name)
 	g.next, g.live, g.lastTime, g.ro = 0, nil, 1_000_000, false
